@@ -1,4 +1,4 @@
-import NgoVerif.Proofs.C10stm
+import NgoVerif.Proofs.C10multi
 import NgoVerif.Generated.Tables
 import NgoVerif.Meta.Fold
 import NgoVerif.Meta.Split
@@ -68,10 +68,37 @@ theorem C10_factor_first_complete (P : Sem.Params) (hp : Sem.AggPersistent P) (u
       ∀ a, T' a ↔ Proofs.C16sem.extend (Sem.stdParams P) (fun v => v ∈ u.split.G0) u.split.syn T a :=
   factor_first_complete P hp u hinv hok pre post hctx T' hT'
 
+open Proofs.C10multi in
+/-- **all places of use at once, soundness** (`Proofs/C10multi.lean`): `before c ps ctx` is the context followed by the
+rules `headᵢ :- bodyᵢ.`, `after c ps ctx` the context, the auxiliary rule `aux(V̄) :- S.` and the rules
+`headᵢ :- restᵢ, aux(σᵢ V̄).`; every answer set of the first extends, by exactly the auxiliary atoms whose literal set
+holds at some place of use, to an answer set of the second -/
+theorem C10_factor_all_sound (P : Sem.Params) (hpers : Sem.AggPersistent P) (c : Canon) (ps : List Place)
+    (hne : 0 < ps.length) (hps : ∀ p ∈ ps, PlaceOk c p) (ctx : Prog) (hctx : CtxAvoids c ctx) (T : Sem.Interp)
+    (hT : Sem.Stable (Sem.stdParams P) (before c ps ctx) T) :
+    Sem.Stable (Sem.stdParams P) (after c ps ctx) (extendAll P c ps T) :=
+  factor_all_sound P hpers c ps hne hps ctx hctx T hT
+
+open Proofs.C10multi in
+/-- **… and completeness**: every answer set of the rewritten program is such an extension: one-to-one -/
+theorem C10_factor_all_complete (P : Sem.Params) (hpers : Sem.AggPersistent P) (c : Canon) (ps : List Place)
+    (hne : 0 < ps.length) (hps : ∀ p ∈ ps, PlaceOk c p) (ctx : Prog) (hctx : CtxAvoids c ctx) (T' : Sem.Interp)
+    (hT' : Sem.Stable (Sem.stdParams P) (after c ps ctx) T') :
+    ∃ T, Sem.Stable (Sem.stdParams P) (before c ps ctx) T ∧ ∀ a, T' a ↔ extendAll P c ps T a :=
+  factor_all_complete P hpers c ps hne hps ctx hctx T' hT'
+
+open Proofs.C10multi in
+/-- the executable checks the driver runs on what the real pass did imply the hypotheses; the order of the statements
+of a program is immaterial (`stable_of_same_statements`) -/
+theorem C10_all_check_sound (c : Canon) (line col : Nat) (head : Head) (body rest : List BLit)
+    (pairs : List (String × String)) (ctx : Prog)
+    (h1 : placeCheck c line col head body rest pairs = true) (h2 : ctxAvoidsCheck c ctx = true) :
+    PlaceOk c (placeOf line col head body rest pairs) ∧ CtxAvoids c ctx :=
+  ⟨placeCheck_sound c line col head body rest pairs h1, ctxAvoidsCheck_sound c ctx h2⟩
+
 open Proofs.C10stm Proofs.C16stm in
-/-- **a further place of use**: with the auxiliary rule present, folding does not change the stable models.  `_partial`:
-the context `pre ++ post` must not mention the auxiliary predicate, i.e. the places of use already rewritten are not
-covered by this statement (the simultaneous version for all places of use is not proved; the oracle validates it) -/
+/-- a single further place of use with the auxiliary rule present (superseded by `C10_factor_all_*`; kept because it needs
+no other place of use in the statement): `_partial` - the context must not mention the auxiliary predicate -/
 theorem C10_factor_next_partial (P : Sem.Params) (hp : Sem.AggPersistent P) (u : Use) (hinv : ∀ v, u.σ (u.σ v) = v)
     (hok : Ok u.split) (pre post : Prog) (hctx : CtxOk u.split pre post) (T : Sem.Interp) :
     Sem.Stable (Sem.stdParams P) (pre ++ u.canon :: u.split.orig :: post) T ↔
